@@ -58,7 +58,7 @@ def translate_pixel(data, pixel_coords, target_cid):
                 comp = data.get_component(target_cid)
             else:
                 comp = data._world_components[target_cid]
-            return comp._calculate(view=pixel_coords), dependent_axes(data.coords, comp.axis)
+            return comp._world_at_pixel_positions(pixel_coords), dependent_axes(data.coords, comp.axis)
         else:
             raise IncompatibleAttribute(target_cid)
 
